@@ -43,8 +43,10 @@ HasRedef(s, ops) ==
     ELSE IF ~Enabled(s, Head(ops)) THEN FALSE
     ELSE IsRedefinition(s, Head(ops)) \/ HasRedef(Apply(s, Head(ops)), Tail(ops))
 \* The code handles such a statement by indexing its container table with the marker id (undefined
-\* behaviour): whatever the execution contradicts from there on is one finding.
-RedefKey == << [w |-> "LookupIffDefinedAlongChain", q |-> "redefine-after-delete", x |-> "the redefined entry is found, nothing else changes"] >>
+\* behaviour).  From there on an execution is judged only on what the statement was about: it must
+\* not crash, and every path through a redefined entry must find it and read it back.  That is one
+\* finding, independent of the others (the rest of such an execution is not compared).
+RedefKey == << [w |-> "LookupIffDefinedAlongChain", q |-> "redefine-after-delete", x |-> "the redefined entry is found and reads back"] >>
 
 \* ---- a row of the query table ------------------------------------------------------------------
 CfgIs(o, s, id) == IF id = 0 THEN o.null ELSE (~o.null /\ o.at = NodePath(s, id))
@@ -87,6 +89,14 @@ RowFails(s, e) ==
                          /\ IF n.ofz THEN SeqSet(ObsSel(e)) # SeqSet(ExpSel(s, r)) \/ Len(e.sel) # e.cnt
                             ELSE ObsSel(e) # ExpSel(s, r),
                          ToString(ExpSel(s, r)))
+
+PathTouchesRad(s, path) ==
+    \E k \in 1..Len(path) : LET r == Lookup(s, SubSeq(path, 1, k)) IN r > 0 /\ s.nodes[r].rad
+RedefRowFails(s, e) ==
+    IF PathTouchesRad(s, e.path)
+       /\ \E i \in 1..Len(RowFails(s, e)) :
+             RowFails(s, e)[i].w \in {"LookupIffDefinedAlongChain", "ReadBack", "MergeOnReopen", "AppendExtendsInherited", "DeleteHides"}
+    THEN RedefKey ELSE <<>>
 
 \* ---- recording -------------------------------------------------------------------------------
 Count(t, k) == IF k \in DOMAIN t THEN t[k] ELSE 0
@@ -153,7 +163,7 @@ Consume ==
                 /\ UNCHANGED <<st, pend, cyc, redef, dead, nops>>
                 /\ IF cyc THEN UNCHANGED <<seen, bad, tally, nrows>>     \* a cyclic config cannot be looked up
                    ELSE /\ nrows' = nrows + 1
-                        /\ Record(IF redef THEN (IF RowFails(st, e) # <<>> THEN RedefKey ELSE <<>>) ELSE RowFails(st, e), e.id)
+                        /\ Record(IF redef THEN RedefRowFails(st, e) ELSE RowFails(st, e), e.id)
          [] OTHER -> UNCHANGED <<st, pend, cyc, redef, asked, dead, seen, bad, tally, nops, nrows>>
 
 Finish ==
